@@ -54,9 +54,9 @@ def compare(pred, row, flat):
         else:
             diffs.append("event count: spec %d impl %d" % (len(pe), len(oe)))
     end = row["end"]
-    if end["escaped"]:
-        diffs.append("escaped %s" % end["escaped"])
-    if bool(pred["verdict"]) != end["verdict"]:
+    if bool(end["escaped"]) != bool(pred.get("escaped", False)):
+        diffs.append("escaped: spec %s impl %r" % (pred.get("escaped", False), end["escaped"]))
+    if not end["escaped"] and bool(pred["verdict"]) != end["verdict"]:
         diffs.append("verdict spec %s impl %s" % (pred["verdict"], end["verdict"]))
     if list(pred["status"]) != end["status"]:
         diffs.append("status spec %s impl %s" % (pred["status"], end["status"]))
@@ -74,7 +74,7 @@ def base_of(row):
             "status": end["status"], "step_status": end["step_status"]}
 
 
-def judge_row(rid, prog_tla, cfg_tla, row, base=None, skips=None, hookcl=False):
+def judge_row(rid, prog_tla, cfg_tla, row, base=None, skips=None, hookcl=False, kbd=False):
     """driver row -> row of Run_Trace (uniform records, markers as records)"""
     end = row["end"]
 
@@ -86,7 +86,7 @@ def judge_row(rid, prog_tla, cfg_tla, row, base=None, skips=None, hookcl=False):
           "errmarks": [[recs(x) for x in per] for per in end["errmarks"]],
           "captured": [recs(x) for x in end["captured"]],
           "real_out": recs(end["real_out"]), "real_err": recs(end["real_err"]), "user_log": recs(end["user_log"])}
-    return {"id": rid, "prog": prog_tla, "cfg": cfg_tla, "skips": skips or [], "hookcl": bool(hookcl), "events": row["events"], "end": e2, "base": base or base_of(row)}
+    return {"id": rid, "prog": prog_tla, "cfg": cfg_tla, "skips": skips or [], "hookcl": bool(hookcl), "kbd": bool(kbd), "events": row["events"], "end": e2, "base": base or base_of(row)}
 
 
 # ----------------------------------------------------------------------------- shared stage with cache
@@ -228,6 +228,25 @@ def plan(tier, seed, with_dup=False):
         nh = G.count_hooks_upper(G.flatten(prog))
         return [(with_o2(prog), [G.cfg(stop=True)], [[0, 0]] + [[k, 0] for k in range(1, nh + 1)])]
 
+    def with_kbd(p, prob):
+        """some programs: the faulty hook invocations raise KeyboardInterrupt (the run is interrupted while a hook runs)"""
+        if rnd.random() < prob and not p.get("skips"):
+            p["kbdhooks"] = True
+        return p
+
+    def kbd_hook_programs():
+        """EVERY single hook invocation of small programs as the point where the user interrupts the run"""
+        progs = [{"features": [G.feature([G.scenario(["pass", "pass"], ["t1"]), G.scenario(["pass"])], ["t2"], bg=["pass"]),
+                               G.feature([G.scenario(["pass"])])], "family": "kbdhooks", "kbdhooks": True},
+                 {"features": [G.feature([G.rule([G.scenario([G.step("pass", cl=[1, "testrun", False]), G.step("nest_pass", cl=[2, "", False])], ["t1"]),
+                                                  G.outline([([], [["pass"], ["fail"]])])], ["t2"], bg=["pass"])]),
+                               G.feature([G.scenario(["pass"])])], "family": "kbdhooks", "kbdhooks": True, "hookcl": True}]
+        res = []
+        for p in progs:
+            nh = G.count_hooks_upper(G.flatten(p))
+            res.append((with_o2(p), [G.cfg(), G.cfg(capture=(True, False, True), stop=True)], [[0, 0]] + [[k, 0] for k in range(1, nh + 1)]))
+        return res
+
     def with_typed(p, prob):
         """some programs: steps written with all five keywords, one step function per step type under the same pattern"""
         if rnd.random() < prob:
@@ -362,11 +381,12 @@ def plan(tier, seed, with_dup=False):
         for p in G.family_scen(2):
             out.append((with_o2(p), [G.cfg(), rcfg()], rfaults(p, 2)))
         for p in G.family_tree(rnd, 260):
-            p = with_typed(with_literal(with_hdronly(with_hookcl(with_skips(with_o2(p), 0.2), 0.3), 0.2), 0.3), 0.3)
+            p = with_kbd(with_typed(with_literal(with_hdronly(with_hookcl(with_skips(with_o2(p), 0.2), 0.3), 0.2), 0.3), 0.3), 0.1)
             out.append((p, with_names(p, [dict(c, retry=False) for c in (rcfg(), rcfg())] if p.get("skips") else [rcfg(), rcfg()], 0.2), rfaults(p, 2)))
         for p in G.family_big(rnd, 40):
             out.append((with_typed(with_o2(p), 0.4), [rcfg()], rfaults(p, 2)))
         out.extend(typed_programs())
+        out.extend(kbd_hook_programs())
         out.extend(cleanup_only_programs())
         out.extend(logging_programs())
         out.extend(lateskip_programs())
@@ -396,7 +416,7 @@ def plan(tier, seed, with_dup=False):
                     G.cfg(show_skipped=False, capture=(alt % 2 == 0, alt % 3 == 0, alt % 5 == 0))]
             out.append((p, cfgs, [[0, 0]] + spread(nh, 3)))
         for p in G.family_tree(rnd, 1000):
-            p = with_typed(with_literal(with_hdronly(with_hookcl(with_skips(with_o2(p), 0.2), 0.3), 0.2), 0.3), 0.3)
+            p = with_kbd(with_typed(with_literal(with_hdronly(with_hookcl(with_skips(with_o2(p), 0.2), 0.3), 0.2), 0.3), 0.3), 0.1)
             nh = G.count_hooks_upper(G.flatten(p))
             cf = [rcfg(), rcfg()]
             out.append((p, with_names(p, [dict(c, retry=False) for c in cf] if p.get("skips") else cf, 0.2), [[0, 0]] + spread(nh, 6) + rfaults(p, 2)[1:]))
@@ -409,8 +429,12 @@ def plan(tier, seed, with_dup=False):
         out.extend(decorated_hook_programs())
         out.extend(stop_fault_programs())
         out.extend(typed_programs())
+        out.extend(kbd_hook_programs())
         for p in G.family_big(rnd, 300):
             out.append((with_typed(with_o2(p), 0.4), [rcfg(), rcfg()], rfaults(p, 6)))
+    # interrupted-hook programs are not combined with observer hooks: a feature status read (and cached) mid-run survives
+    # when the interrupt skips the end of Feature.run -- observed, not modelled (DESIGN 11.5)
+    out = [(p, [dict(c, observe=False) for c in cfgs] if p.get("kbdhooks") else cfgs, faults) for p, cfgs, faults in out]
     return out
 
 
@@ -418,7 +442,7 @@ def shared(chk, part="core"):
     """Run (or load) the shared stage for this tree / tier / seed.  Returns a dict:
        n_runs, tlc: [{module,cfg,distinct,generated,wall,coverage}], verdicts: {clause: [ {key, ...} ]},
        divergences, samples, design_violations"""
-    key = tree_key({"tier": chk.tier, "seed": chk.seed, "part": part, "v": 40})
+    key = tree_key({"tier": chk.tier, "seed": chk.seed, "part": part, "v": 42})
     os.makedirs(CACHE, exist_ok=True)
     # one entry per (part, tier, repository location): runs against a mutated copy must not evict /repo's entry
     prefix = "%s-%s-%s-" % (part, chk.tier, hashlib.sha256(REPO.encode()).hexdigest()[:8])
@@ -486,11 +510,11 @@ def _compute(chk, part):
     # design level, two-run clause: every predicted faulty behaviour paired with the predicted fault-free one
     prows = []
     for k in sorted(preds):
-        if k[2] == 1 or (k[0], k[1], 1) not in preds:
+        if k[2] == 1 or (k[0], k[1], 1) not in preds or info[k[0]][4]["kbd"]:
             continue
         d, b = preds[k], preds[(k[0], k[1], 1)]
         case = info[k[0]][4]
-        prows.append({"id": len(prows) + 1, "prog": case["prog"], "cfg": case["cfgs"][k[1] - 1], "skips": case["skips"], "hookcl": case["hookcl"], "events": d["events"],
+        prows.append({"id": len(prows) + 1, "prog": case["prog"], "cfg": case["cfgs"][k[1] - 1], "skips": case["skips"], "hookcl": case["hookcl"], "kbd": False, "events": d["events"],
                       "end": {"ran": True, "verdict": d["verdict"], "status": d["status"], "step_status": d["step_status"], "hook_failed": d["hook_failed"]},
                       "base": {"ran": True, "aborted": any(e["k"] == "step" and e["outcome"] in ("kbd", "abort") for e in b["events"]),
                                "status": b["status"], "step_status": b["step_status"]}, "_key": list(k)})
@@ -513,7 +537,7 @@ def _compute(chk, part):
         for ci, c in enumerate(cfgs):
             for fi, f in enumerate(faults):
                 jobs.append({"key": [tid, ci + 1, fi + 1], "prog": p, "flat": flat, "cfg": c, "fault": f,
-                             "fault_kind": "assert" if (tid + ci + fi) % 3 == 0 else "exc",
+                             "fault_kind": "kbd" if p.get("kbdhooks") else ("assert" if (tid + ci + fi) % 3 == 0 else "exc"),
                              # every 7th job: the same model objects were run once before and reset (history)
                              # ... every 14th: by this very runner object (same configuration), the others by another runner
                              "prerun": ("same" if (tid + 2 * ci + 3 * fi) % 14 == 7 else True) if (tid + 2 * ci + 3 * fi) % 7 == 0 else False})
@@ -526,7 +550,7 @@ def _compute(chk, part):
     for n, row in enumerate(out):
         k = tuple(row["key"])
         case = info[k[0]][4]
-        jrows.append(judge_row(n + 1, case["prog"], case["cfgs"][k[1] - 1], row, base=base_of(bykey[(k[0], k[1], 1)]), skips=case["skips"], hookcl=case["hookcl"]))
+        jrows.append(judge_row(n + 1, case["prog"], case["cfgs"][k[1] - 1], row, base=base_of(bykey[(k[0], k[1], 1)]), skips=case["skips"], hookcl=case["hookcl"], kbd=case["kbd"]))
         if k in preds:
             d = compare(preds[k], row, info[k[0]][1])
             if d:
